@@ -128,6 +128,10 @@ func (c *funcScope) analyzeVoidCalls(node ast.Node) bool {
 			c.voidCalls[ce] = true
 		}
 	}
+	// Results of a deferred call are discarded as well.
+	if ds, ok := node.(*ast.DeferStmt); ok {
+		c.voidCalls[ds.Call] = true
+	}
 	return true
 }
 
